@@ -50,6 +50,10 @@ impl C08 {
     fn ulen(&self) -> (u32, u32) {
         self.tier.pick((5, 6), (5, 7))
     }
+    /// thorough: a second u-alphabet with two vowels and two consonants, lengths 5-6
+    fn au4(l: L) -> [char; 4] {
+        if l.is_cyrillic() { ['а', 'е', 'б', 'т'] } else { ['a', 'e', 'b', 't'] }
+    }
 }
 
 fn neighbours(u: &[char], abc: &[char; 3]) -> Vec<String> {
@@ -154,11 +158,16 @@ impl Prop for C08 {
         for (i, l) in LANGS.iter().enumerate() {
             d.push(Dom::new(format!("{}/R7: every function word of the language", l.tag()), self.fw[i].len() as u64, 4));
         }
+        if self.tier == Tier::Thorough {
+            for l in LANGS {
+                d.push(Dom::new(format!("{}/R1-R6: u in words 5..6 over 4 letters (2 vowels, 2 consonants)", l.tag()), seqs_len(4, 5, 6), 8));
+            }
+        }
         d
     }
     fn run(&self, dom: usize, idx: u64, cx: &mut Cx) {
         let all = all_ratings();
-        if dom >= LANGS.len() {
+        if dom >= LANGS.len() && dom < 2 * LANGS.len() {
             // R7
             let l = LANGS[dom - LANGS.len()];
             let ab = abc(l);
@@ -193,10 +202,11 @@ impl Prop for C08 {
             }
             return;
         }
-        let l = LANGS[dom];
+        let four = dom >= 2 * LANGS.len();
+        let l = LANGS[dom % LANGS.len()];
         let ab = abc(l);
         let (lo, hi) = self.ulen();
-        let u = string_at(&ab.au, lo, hi, idx);
+        let u = if four { string_at(&Self::au4(l), 5, 6, idx) } else { string_at(&ab.au, lo, hi, idx) };
         let uc = chars(&u);
         // u must be a single non-function token (always true for these alphabets; checked, not assumed)
         match tok_record(l, &u) {
@@ -208,7 +218,8 @@ impl Prop for C08 {
         }
         let qforms = |q: &str| vec![q.to_string(), format!("{} ", q)];
         // R1: exact word before the same word with a typo
-        for n in neighbours(&uc, &ab.au) {
+        let nb = if four { let a = Self::au4(l); let mut v = neighbours(&uc, &[a[0], a[2], a[3]]); v.extend(neighbours(&uc, &[a[1], a[2], a[3]])); v.sort(); v.dedup(); v } else { neighbours(&uc, &ab.au) };
+        for n in nb {
             for q in qforms(&u) {
                 before(cx, l, "R1:exact-before-typo", &u, &n, &q, &all);
             }
